@@ -180,6 +180,7 @@ CHECKS["C08"] = {
         ]},
         {"engine": "E", "proxy": ["plain"], "tests": [
             {"run": "TestVfC08Timed", "quick": 4, "thorough": 260, "shards_quick": 4, "shards_thorough": 8, "timeout_thorough": 3400, "shrinktime": "30s"},
+            {"run": "TestVfC08Redis", "quick": 4, "thorough": 260, "shards_quick": 4, "shards_thorough": 8, "timeout_thorough": 3400, "shrinktime": "30s"},
         ]},
     ],
     "assumptions": [
@@ -216,6 +217,7 @@ CHECKS["C05"] = {
         {"engine": "P", "pkg": "internal/upstream/transport", "tests": [
             {"run": "TestVfC05Pipeline", "quick": 2400, "thorough": 160000, "shards_quick": 12, "shards_thorough": 16, "args": ["-rapid.steps", "50"], "timeout_thorough": 3400},
             {"run": "TestVfC05Rollover", "quick": 8, "thorough": 960, "timeout_thorough": 3000, "shards_quick": 8, "shards_thorough": 16},
+            {"run": "TestVfC05SlowFrame", "quick": 320, "thorough": 32000, "timeout_thorough": 3000, "shards_quick": 8, "shards_thorough": 16},
         ]},
     ],
     "assumptions": ["the server side is the harness's in-memory connection; dials always succeed (faults are C14's domain)"],
